@@ -255,4 +255,33 @@ def witness(failure, ctx):
                         "observed": {"tokens": got, "lookups": looks, "rc": p.returncode},
                         "expected": {"tokens": exp, "lookups": explooks},
                         "how": "vreplay storage-script on the real Storage<f32>"}
-    return {"found": False, "exhaustive": False, "how": "%d scripts of <= 4 operations agreed" % tried}
+    # second family: a value type whose equality is not structural (same key = equal; key N never equal; key W equals every
+    # non-W value but not another W): the first equal stored value's token is returned, stored values are never replaced
+    vals2 = ["1.a", "1.b", "2.a", "N.a", "W.a"]
+    scripts = []
+    for n in range(1, 5):
+        scripts += [list(o) for o in itertools.product(["a:" + v for v in vals2] + ["f:" + v for v in vals2], repeat=n)]
+
+    def eq(a, b):
+        ka, kb = a.split(".")[0], b.split(".")[0]
+        if ka == "N" or kb == "N" or (ka == "W" and kb == "W"):
+            return False
+        return ka == "W" or kb == "W" or ka == kb
+    p, err = ctx["vreplay"](["storage-batch"], stdin="\n".join(" ".join(s_) for s_ in scripts) + "\n", timeout=600)
+    if p is None or p.returncode != 0:
+        return {"found": False, "error": err or (p.stderr[-300:] if p else "")}
+    for ops, line in zip(scripts, p.stdout.splitlines()):
+        data, exp = [], []
+        for op in ops:
+            v = op[2:]
+            hit = next((i for i, d in enumerate(data) if eq(d, v)), None) if op[0] == "f" else None
+            if hit is None:
+                exp.append(len(data))
+                data.append(v)
+            else:
+                exp.append(hit)
+        want = "tokens %s lookups %s" % (",".join(str(t) for t in exp), ",".join(data[t] for t in exp))
+        if line != want:
+            return {"found": True, "exhaustive": False, "input": ops, "observed": line, "expected": want,
+                    "how": "vreplay storage-batch on the real Storage<V> (V: equality by key only, a NaN-like key, a wildcard key)"}
+    return {"found": False, "exhaustive": False, "how": "%d + %d scripts of <= 4 operations agreed" % (tried, len(scripts))}
